@@ -5,6 +5,8 @@ import (
 	"bytes"
 	"fmt"
 	"io"
+	"os"
+	"path/filepath"
 	"strings"
 	"sync"
 
@@ -23,7 +25,7 @@ func registerC10() {
 		Rule: "family frames: every intact device frame and PRNG model files (record areas of 0-3 bytes after file_id up to sizes straddling 4096 and 8192) are served by a " +
 			"counting reader whose backing store is frame || 64 poison bytes || another valid file, under 14 chunkers (1 byte, odd sizes, 4095/4096/4097/5000, PRNG sizes, " +
 			"greedy readers that always fill the buffer, final chunk with io.EOF, occasional (0,nil), yields); for each of the six entry points: bytes delivered <= frame " +
-			"length, == header+data+2 after a successful Decode/CheckIntegrity, result equal to the whole-buffer result; the same frames also through bufio readers (16 and 4096 bytes), bytes.Buffer, strings.Reader behind io.LimitReader, io.MultiReader and a reader offering ReadByte/UnreadByte/Seek/ReadAt/WriteTo/Len with short reads; family chains: concatenations of 1-5 files in PRNG " +
+			"length, == header+data+2 after a successful Decode/CheckIntegrity, result equal to the whole-buffer result; the same frames also through bufio readers (16 and 4096 bytes), bytes.Buffer, strings.Reader behind io.LimitReader, io.MultiReader a reader offering ReadByte/UnreadByte/Seek/ReadAt/WriteTo/Len with short reads, and *os.File (a regular file on disk, and a pipe); family chains: concatenations of 1-5 files in PRNG " +
 			"order: DecodeChained returns one File per input equal to the solo decode, DecodeHeader / DecodeHeaderAndFileID report Decode's header and file_id. A case is one " +
 			"(file, chunker) pair or one chain; non-trivial: the call succeeded and consumption was measured; distinct by (input digest, chunker)",
 		Assume:        []string{"record.distance of records whose compressed_speed_distance expands is excluded from solo-vs-chained comparison (known finding F5, decided in C18)"},
@@ -214,8 +216,8 @@ func c10Frame(c *lib.Ctx, idx uint64) {
 	// The same frame through readers of other dynamic types: standard-library readers and a reader that
 	// offers every optional interface (ReadByte, Seek, ReadAt, WriteTo, Len) while still short-reading.
 	// Whatever fast path a decoder takes for such a type, the result must be the whole-buffer result.
-	if chi < 6 {
-		kinds := []string{"bufio16", "bufio4096", "bytes.Buffer", "strings.Reader+LimitReader", "MultiReader", "fancy"}
+	if chi < 8 {
+		kinds := []string{"bufio16", "bufio4096", "bytes.Buffer", "strings.Reader+LimitReader", "MultiReader", "fancy", "*os.File (regular file)", "*os.File (pipe)"}
 		kind := kinds[chi]
 		for _, ep := range lib.EntryPoints {
 			if ep == "DecodeChained" {
@@ -223,6 +225,7 @@ func c10Frame(c *lib.Ctx, idx uint64) {
 			}
 			var rd io.Reader
 			var fr *lib.FancyReader
+			var cleanup func()
 			switch kind {
 			case "bufio16":
 				rd = bufio.NewReaderSize(lib.NewReader(store, lib.Chunker{Kind: "rand", Size: 300, R: rng}), 16)
@@ -235,12 +238,38 @@ func c10Frame(c *lib.Ctx, idx uint64) {
 			case "MultiReader":
 				k := len(frame) / 3
 				rd = io.MultiReader(bytes.NewReader(store[:k]), bytes.NewReader(store[k:2*k+1]), bytes.NewReader(store[2*k+1:]))
-			default:
+			case "fancy":
 				fr = lib.NewFancyReader(store, rng)
 				rd = fr
+			case "*os.File (regular file)":
+				dir := filepath.Join(lib.OutDir(), "work", "C10-files")
+				os.MkdirAll(dir, 0o755)
+				p := filepath.Join(dir, fmt.Sprintf("frame-%d.fit", os.Getpid()))
+				if os.WriteFile(p, store, 0o644) != nil {
+					continue
+				}
+				fh, err := os.Open(p)
+				if err != nil {
+					continue
+				}
+				cleanup = func() { fh.Close(); os.Remove(p) }
+				rd = fh
+			default:
+				// an *os.File that is not a regular file: Stat reports size 0, Seek fails
+				pr, pw, err := os.Pipe()
+				if err != nil {
+					continue
+				}
+				go func() { pw.Write(store); pw.Close() }()
+				cleanup = func() { pr.Close() }
+				rd = pr
 			}
 			var res lib.CallResult
 			o := lib.Guard(func() { res = lib.Call(ep, rd) })
+			if cleanup != nil {
+				cleanup()
+				cleanup = nil
+			}
 			c.Eval()
 			if o.Panicked || o.Hang {
 				c.Violation(frame, "%s through a %s reader panicked/hung on %s: %s", ep, kind, label, o.Panic)
